@@ -13,6 +13,7 @@ import (
 	"sync"
 	"sync/atomic"
 	"time"
+	"verifharness/model"
 
 	"github.com/miekg/dns"
 
@@ -513,6 +514,30 @@ func c12IDs(w *core.W, j int) {
 			w.Violation("C12/stream-own-reply-rejected", fmt.Sprintf("err=%v", err), nil)
 		}
 	}
+	// a zone transfer is a client exchange over a stream as well: a foreign ID in any envelope
+	if j%10 == 0 {
+		zone := model.Name{[]byte("xfr"), []byte("example")}
+		g := model.NewGen(w.Rng(j, 3))
+		for _, kind := range []int{0, 3} {
+			st := c15MakeStream(g, zone, kind)
+			envs := compose(st.recs, ^uint64(0)) // one record per envelope
+			for at := 0; at < len(envs) && at < 4; at++ {
+				tq := new(dns.Msg)
+				if st.ixfr {
+					tq.SetIxfr(zone.Pres(), st.serial, "ns.example.", "h.example.")
+				} else {
+					tq.SetAxfr(zone.Pres())
+				}
+				tq.Id = uint16(3000 + j + at)
+				res := c15Run(w, tq, envs, false, c15Fault{kind: "id", at: at}, 0)
+				w.Eval(1)
+				w.Count("transfer_id_checks", 1)
+				if res.errIndex < 0 || !errors.Is(res.lastErr, dns.ErrId) {
+					w.Violation("C12/stream-foreign-id-accepted/transfer/"+st.kind, fmt.Sprintf("envelope %d of %d carries a foreign ID: error index %d, error %v", at, len(envs), res.errIndex, res.lastErr), nil)
+				}
+			}
+		}
+	}
 	// datagrams: 0..5 stale/duplicate/foreign replies before the real one
 	n := r.IntN(6)
 	var script [][]byte
@@ -535,6 +560,9 @@ func c12IDs(w *core.W, j int) {
 		script = append(script, mk(q.Id, "real"), mk(q.Id, "late-duplicate"))
 	}
 	sc := netsim.NewScripted(script)
+	if n >= 2 {
+		sc.ReadGap = 4 * time.Millisecond // time passes while foreign replies trickle in
+	}
 	w.Eval(1)
 	w.Count("datagram_scripts", 1)
 	w.NontrivialStr("ids", fmt.Sprint(j))
@@ -543,6 +571,19 @@ func c12IDs(w *core.W, j int) {
 	if !within(c12Watch, func() { rep, _, err = c.ExchangeWithConn(q, &dns.Conn{Conn: sc}) }) {
 		w.Violation("C12/datagram-exchange-hang", "ExchangeWithConn over a datagram connection did not return by its deadline", nil)
 		return
+	}
+	// skipping a reply must not move the deadline: every read deadline set during the exchange names
+	// the same instant as the first one (compared with each other, not with the clock)
+	if dl := sc.ReadDeadlines; len(dl) > 1 {
+		var drift time.Duration
+		for _, d := range dl[1:] {
+			if x := d.Sub(dl[0]); x > drift {
+				drift = x
+			}
+		}
+		if drift > 2*time.Millisecond {
+			w.Violation("C12/datagram-deadline-extended-by-skipped-replies", fmt.Sprintf("%d read deadlines were set during one exchange; the last lies %v after the first (%d replies with other IDs were skipped)", len(dl), drift, n), nil)
+		}
 	}
 	if withReal {
 		if err != nil || rep == nil || rep.Id != q.Id {
